@@ -119,6 +119,107 @@ def http_bodies(chk, i):
                      {"format": fmt, "stripped": stripped})
 
 
+# ---- HTTP responses (the level=core anchor of the property): the response classes every route renders with, sequentially and
+# with two responses of different levels overlapping in time (a threaded WSGI server renders them in one process)
+class _Overlap:
+    """Deterministic schedule for two overlapping computations: `first()` runs in the calling thread; when it enters its k-th
+    Python function of the SDK (files below .../basyx/), a second thread runs `second()` to completion, then `first`
+    continues.  Implemented with sys.setprofile of the calling thread only (no patching of the SDK, no dependence on which
+    functions there are); k = 0 counts only.  Returns (result of first, result of second or None, number of SDK calls)."""
+
+    def __init__(self, first, second, k):
+        self.first, self.second, self.k = first, second, k
+        self.calls = 0
+        self.out2 = None
+
+    def _second(self):
+        try:
+            self.out2 = ("ok", self.second())
+        except Exception as e:   # reported by the caller
+            self.out2 = ("raised", f"{type(e).__name__}: {str(e)[:120]}")
+
+    def _prof(self, frame, event, arg):
+        if event != "call" or "/basyx/" not in frame.f_code.co_filename:
+            return
+        self.calls += 1
+        if self.calls == self.k:
+            import sys
+            import threading
+            sys.setprofile(None)    # the other request is not part of the count (and runs in its own thread anyway)
+            t = threading.Thread(target=self._second)
+            t.start()
+            t.join()
+            sys.setprofile(self._prof)
+
+    def run(self):
+        import sys
+        old = sys.getprofile()
+        sys.setprofile(self._prof)
+        try:
+            out1 = self.first()
+        finally:
+            sys.setprofile(old)
+        return out1, self.out2, self.calls
+
+
+def _json_response(obj, st, paged):
+    from basyx.aas.adapter.http import JsonResponse
+    r = JsonResponse([obj] if paged else obj, cursor=7 if paged else None, stripped=st)
+    d = json.loads(r.get_data())
+    if paged:
+        if set(d) != {"paging_metadata", "result"} or not isinstance(d["result"], list) or len(d["result"]) != 1:
+            return {"_envelope": d}
+        return d["result"][0]
+    return d
+
+
+def http_response_case(obj, full, i, ks=None):
+    """renders `obj` as an HTTP JSON response at both levels - one after the other, then overlapping (each level interrupted
+    by a complete response of the other level at several points).  Yields (kind, schedule, difference) for every rendering
+    that is not the full JSON (deep) / the full JSON minus the detachable members (core)."""
+    want = {False: full, True: strip_json(full)}
+    paged = i % 8 == 4
+    n = {}
+    for st in (False, True, True, False):      # sequential, both successions of levels
+        try:
+            got, _, n[st] = _Overlap(lambda: _json_response(obj, st, paged), None, 0).run()
+            d = aasgen.diff(want[st], got)
+        except Exception as e:
+            d = f"/: raised {type(e).__name__}: {str(e)[:120]}"
+            n[st] = 0
+        if d:
+            yield "http-response", {"level": "core" if st else "deep", "paged": paged, "overlap": None}, d
+    for st in (True, False):
+        total = n.get(st, 0)
+        if not total:
+            continue
+        for k in (ks or sorted({min(3, total), max(1, total // 2), 1 + (i // 4 * 5) % total, total})):
+            sched = {"level": "core" if st else "deep", "paged": paged,
+                     "overlap": f"a complete {'deep' if st else 'core'}-level response of the same object is rendered by a second "
+                                f"thread when this rendering enters its SDK function number {k} of {total}", "k": k}
+            try:
+                got, other, _ = _Overlap(lambda: _json_response(obj, st, paged), lambda: _json_response(obj, not st, paged), k).run()
+                d = aasgen.diff(want[st], got)
+                if not d and other is not None:
+                    d2 = aasgen.diff(want[not st], other[1]) if other[0] == "ok" else f"/: raised {other[1]}"
+                    d = d2 and f"{d2} (in the interrupting {'deep' if st else 'core'}-level response)"
+                elif not d:
+                    d = "/: the schedule was not exercised (fewer SDK calls than in the sequential rendering)"
+            except Exception as e:
+                d = f"/: raised {type(e).__name__}: {str(e)[:120]}"
+            if d:
+                yield "http-response-overlap", sched, d
+
+
+def http_responses(chk, cls, obj, full, i):
+    for kind, sched, d in http_response_case(obj, full, i):
+        chk.fail(sig(kind, d), f"HTTP JSON response (level={sched['level']}{', paged' if sched['paged'] else ''}) of a {cls} is not "
+                 f"the {'full JSON minus the detachable members' if sched['level'] == 'core' else 'full JSON'}"
+                 f"{'; ' + sched['overlap'] if sched['overlap'] else ''}: {d}",
+                 {"kind": kind, "class": cls, "full_json": full, "index": i, "schedule": sched})
+    chk.count("http-response:" + ("paged" if i % 8 == 4 else "single"))
+
+
 def canon_json(d):
     """JSON value with the arrays that render unordered collections sorted (their order may differ between two renderings
     of the same store)"""
@@ -193,6 +294,8 @@ def _run(chk):
             # bodies with the strict (stripped) decoders; doing so must leave the readers as they were
             if i % 4 == 0:
                 http_bodies(chk, i)
+                # ... and renders its responses with a result encoder at the level the request asks for (level=core / $metadata)
+                http_responses(chk, cls, obj, full, i)
             # the documented way to get stripped behaviour is the class attribute `stripped`: a user-defined subclass that only
             # declares it (as the HTTP adapter's result encoder does) must behave like the shipped stripped classes
             via_attr = json.loads(json.dumps(obj, cls=USER_ENCODER))
@@ -335,7 +438,9 @@ def _run(chk):
         "the detachable-part list is written from the property text twice: props/C18.v (Coq) and tools/c18.py (Python oracle)",
         "codec abstractions of C03 (typed values as literals, JSON text layer)",
         "the model covers the JSON writer and JSON reader; the XML reader is tied by its guard set (theorem) and by the oracle only",
-        "HTTP level=core selecting the stripped encoder is covered by C10/C11, not here",
+        "HTTP: the response class (JsonResponse) is rendered at both levels, sequentially and with two responses overlapping under a "
+        "deterministic schedule (sys.setprofile switch points, second thread); the routes' choice of level is C10/C11's",
+        "overlap of two responses is tied by the oracle only (the Coq model renders one value at a time with the mode as a parameter)",
     ]
     return chk.finish(level="proof",
                       rule="generated objects of every class with a modelType (writer oracle, stripped readers on full and stripped "
@@ -346,4 +451,16 @@ def _run(chk):
 def replay(path):
     r = json.load(open(path))
     print(json.dumps(r, indent=1)[:4000])
+    rp = r.get("replay") or {}
+    if isinstance(rp, dict) and str(rp.get("kind", "")).startswith("http-response"):
+        # re-executed: the object is read back from its full JSON, then rendered with the recorded schedule
+        from basyx.aas.adapter.json import AASFromJsonDecoder
+        obj = json.loads(json.dumps(rp["full_json"]), cls=AASFromJsonDecoder)
+        k = rp["schedule"].get("k")
+        found = [(kind, s, d) for kind, s, d in http_response_case(obj, rp["full_json"], rp["index"], ks=[k] if k else None)]
+        for kind, s, d in found:
+            print(f"REPRODUCED {kind} level={s['level']} k={s.get('k')}: {d}")
+        if not found:
+            print("not reproduced on this tree")
+        return 1 if found else 0
     return 1
